@@ -265,7 +265,7 @@ class FIXContainer:
             TagNotFoundError: tag not found
         """
         for group in self.get_group_list(tag):
-            if gtag in group:
+            if gtag in group and not group.is_group(gtag):
                 if group.get(gtag) == gvalue:
                     return group
         raise TagNotFoundError(f"get_group_by_tag: {tag=} {gtag=} {gvalue=} missing")
@@ -285,7 +285,7 @@ class FIXContainer:
         """
         g = self.get_group_list(tag)
 
-        if index >= len(g):
+        if index >= len(g) or index < -len(g):
             raise TagNotFoundError(
                 f"get_group_by_index: index is out of range of {tag=} group"
             )
@@ -306,10 +306,11 @@ class FIXContainer:
             tags = self.tags
 
         for t in tags:
+            t = self._check_tag(t)
             try:
-                t = FTag(str(t))
+                t = FTag(t)
             except Exception:
-                t = str(int(t))
+                pass
 
             result[t] = self.get(t, None)
         return result
